@@ -75,7 +75,7 @@ func (p *Parser) validateDeactivateRequest(req *model.DeactivateRequest) error {
 
 	// the reader of the batch files applies this limit to every operation reference: an operation with a longer suffix
 	// would make the whole batch it is written to unreadable
-	if len(req.DidSuffix) > int(p.MaxOperationHashLength) {
+	if uint(len(req.DidSuffix)) > p.MaxOperationHashLength {
 		return fmt.Errorf("did suffix length[%d] exceeds maximum hash length[%d]", len(req.DidSuffix), p.MaxOperationHashLength)
 	}
 
